@@ -36,25 +36,32 @@ class PoisonError(Exception):
 
 
 class Poison:
-    """second resource manager whose vote fails AFTER the storage voted (=> tpc_abort after vote)"""
+    """a second resource manager that makes the transaction fail at a chosen phase:
+       'vote'   (sorted last)  after the storage voted           => tpc_abort after the vote
+       'commit' (sorted last)  after the connection stored       => abort + tpc_abort before the vote
+       'begin'  (sorted first) before the connection's tpc_begin => abort (tpc_abort without tpc_begin)"""
 
-    def __init__(self, tm):
+    def __init__(self, tm, phase='vote'):
         self.transaction_manager = tm
+        self.phase = phase
 
     def sortKey(self):
-        return '~~~poison'
+        return '   poison' if self.phase == 'begin' else '~~~poison'
 
     def abort(self, t):
         pass
 
     def tpc_begin(self, t):
-        pass
+        if self.phase == 'begin':
+            raise PoisonError()
 
     def commit(self, t):
-        pass
+        if self.phase == 'commit':
+            raise PoisonError()
 
     def tpc_vote(self, t):
-        raise PoisonError()
+        if self.phase == 'vote':
+            raise PoisonError()
 
     def tpc_finish(self, t):
         pass
@@ -89,6 +96,24 @@ def gen_program(rng, role, nobj, nops, blobs=()):
             ops.append(['ic'])
         if blobs and rng.random() < 0.12:
             ops.append(['ro', rng.choice(list(blobs))])     # read a Blob and keep the reader file open
+        x = rng.random()
+        if x < 0.03:
+            ops.append(['cm'])                              # cacheMinimize()
+        elif x < 0.06:
+            ops.append(['rg', rng.randrange(nobj)])         # read through Connection.get(oid)
+        elif x < 0.09:
+            ops.append(['os', rng.randrange(nobj)])         # read + Connection.oldstate(obj, serial)
+        elif x < 0.115:
+            ops.append(['rcur', rng.randrange(nobj)])       # read + readCurrent(obj): joins, checked at commit
+        elif x < 0.14:
+            ops.append(['ex', rng.randrange(nobj)])         # exportFile(oid): the record as the storage has it
+        elif x < 0.16:
+            ops.append(['idle', rng.choice([5, 20, 60])])   # stay inside the transaction while others commit
+        elif x < 0.19:
+            ops.append(['r2', grp])                         # read through a second connection on the same manager
+        elif x < 0.215 and role != 'reader':
+            ops += [['wn'], ['rn'], [rng.choice(['c', 'c', 'a', 'cv'])], ['rn']]   # new objects
+            i += 3
         if role == 'reader':
             if r < 0.62:
                 ops.append(['r', grp])
@@ -106,7 +131,7 @@ def gen_program(rng, role, nobj, nops, blobs=()):
             if r < 0.30:
                 ops.append(['r', grp])
             elif r < 0.62:
-                ops += [['w', grp], [rng.choice(['c', 'c', 'c', 'c', 'cv'])]]
+                ops += [['w', grp], [rng.choice(['c', 'c', 'c', 'c', 'c', 'c', 'cv', 'cv', 'cc', 'cb'])]]
                 i += 1
             elif r < 0.72:
                 ops += [['b'], ['w', grp], ['r', grp], ['c']]
@@ -159,14 +184,18 @@ def gen_case(rng, thorough, idx):
     ctor = rng.choice(['direct', 'direct', 'storage-config', 'db-config']) if kind in ('file', 'map', 'demo') \
         and not nobj2 else 'direct'
     cache_size = rng.choice([400, 400, 1, 2, 5])
-    pool = rng.choice([7, 7, 7, 7, 7, 7, 7, 1, 2])
+    pool = rng.choice([16, 16, 16, 16, 16, 16, 16, 1, 2])
     if pack:
         progs['pk'] = [['pack']] * rng.choice([1, 1, 2])
+    if kind == 'file' and not nobj2 and rng.random() < 0.08:
+        t = rng.choice(sorted(n for n in progs if n != 'pk'))
+        progs[t].insert(rng.randrange(len(progs[t]) + 1), ['do'])    # storage-level deleteObject of garbage
+    clock_step = rng.choice([1.0, 1.0, 0.0, 0.0, 0.001] + ([-1.0] if 'pk' not in progs else []))
     return dict(kind=kind, nobj=nobj, progs=progs, seed=rng.randrange(1 << 30),
                 stick=rng.choice([0.0, 0.3, 0.6, 0.8, 0.9]), pool=pool, ctor=ctor, cache_size=cache_size,
                 layout=rng.choice(['bushy', 'lawn']),
                 explicit=rng.random() < 0.2, garbage=rng.choice([0, 1, 2]),
-                clock_step=rng.choice([1.0, 1.0, 0.0, 0.0, 0.001]), blobs=blobs, nobj2=nobj2,
+                clock_step=clock_step, blobs=blobs, nobj2=nobj2,
                 pct=[rng.choice([1, 2, 3]), rng.choice([100, 300, 800])] if rng.random() < 0.35 else None)
 
 
@@ -202,6 +231,20 @@ class PCTScheduler(sched.Scheduler):
         return best
 
 
+def record_value(data):
+    """MinPO.value out of a data record (class pickle + state pickle); None if there is none"""
+    import io
+    from ZODB._compat import Unpickler
+    try:
+        u = Unpickler(io.BytesIO(data))
+        u.persistent_load = lambda ref: None
+        u.load()
+        state = u.load()
+        return state.get('value') if isinstance(state, dict) else None
+    except Exception:       # noqa: BLE001
+        return None
+
+
 def get_value(obj):
     """the state of a test object: MinPO.value, or the integer stored in a Blob's data"""
     if hasattr(obj, 'open') and not hasattr(obj, 'value'):
@@ -233,6 +276,7 @@ class Run:
         self.loads = {}             # thread -> number of storage loads (to tell hit from miss)
         self.inst_ids = {}          # id(instance) -> small int
         self.pool_bad = []
+        self.garbage = []           # [(oid, serial)] unreachable objects an external GC may delete
         self.values = {}            # (oid, tid) -> stamp the harness knows that commit wrote
         self.trace = []             # model-level events (c02_trace)
         self.tracer = None
@@ -369,10 +413,11 @@ def instrumented(run):
 
 def worker(run, db, name, ops, nobj, explicit, stamps, nobj2=0):
     import transaction
+    from ZODB.tests.MinPO import MinPO
     from ZODB.POSException import ConflictError
     from ZODB.utils import u64
     tm = transaction.TransactionManager(explicit=explicit)
-    st = dict(conn=None, objs=None, sps=[], held=[])
+    st = dict(conn=None, objs=None, sps=[], held=[], conn_b=None, objs_b=None, newobjs=[], newpend=[])
 
     def goid(obj):
         """oid made unique over the databases of the case"""
@@ -387,7 +432,19 @@ def worker(run, db, name, ops, nobj, explicit, stamps, nobj2=0):
         st['held'] = []
 
     def conns():
-        return list(st['conn'].connections.values()) if st['conn'] is not None else []
+        cs = list(st['conn'].connections.values()) if st['conn'] is not None else []
+        return cs + ([st['conn_b']] if st['conn_b'] is not None else [])
+
+    def close_all():
+        drop_held()
+        if st['conn_b'] is not None and len(name) % 2:
+            st['conn_b'].close()
+            st['conn_b'] = None
+        st['conn'].close()
+        if st['conn_b'] is not None:
+            st['conn_b'].close()
+            st['conn_b'] = None
+        st['newobjs'] = []
 
     def epoch_of(obj):
         return run.cur[(name, id(obj._p_jar._normal_storage))]
@@ -403,6 +460,7 @@ def worker(run, db, name, ops, nobj, explicit, stamps, nobj2=0):
         finally:
             run.pending[name] = {}
             st['sps'] = []
+            st['newpend'] = []
             for c in conns():
                 inst = c._normal_storage
                 cur = run.cur.get((name, id(inst)))
@@ -427,6 +485,38 @@ def worker(run, db, name, ops, nobj, explicit, stamps, nobj2=0):
             st['objs'] += [root2['k%d' % i] for i in range(nobj2)]
         st['index'] = {goid(o): i for i, o in enumerate(st['objs'])}
 
+    def boundary_b(fn):
+        """open the second connection of this manager: its own first epoch"""
+        idx = run.tick()
+        fn()
+        inst = st['conn_b']._normal_storage
+        cur = run.cur.get((name, id(inst)))
+        if cur is None or cur['begin'] < idx:
+            ep = dict(thread=name, begin=idx, end_poll=run.tick(), start=None, reads=[], owns=[],
+                      inval=None, synthetic=True, off=0)
+            run.epochs.append(ep)
+            run.cur[(name, id(inst))] = ep
+
+    def do_delete_object():
+        """an external garbage collector deletes an unreachable object at the storage level
+        (IExternalGC.deleteObject in a transaction of its own, no invalidations)"""
+        from ZODB.Connection import TransactionMetaData
+        from ZODB.utils import p64
+        g = run.garbage.pop() if run.garbage else None
+        if g is None:
+            return
+        oid, serial = g
+        t = TransactionMetaData()
+        db.storage.tpc_begin(t)
+        try:
+            db.storage.deleteObject(p64(oid), p64(serial), t)
+            db.storage.tpc_vote(t)
+            db.storage.tpc_finish(t)
+            run.errors.append((name, 'deleteObject', 'ok'))
+        except Exception:
+            db.storage.tpc_abort(t)
+            raise
+
     def do_savepoint():
         sp = tm.savepoint()
         st['sps'].append((sp, dict(run.pending[name])))
@@ -449,17 +539,17 @@ def worker(run, db, name, ops, nobj, explicit, stamps, nobj2=0):
         for oid in sorted(touched):
             read(st['index'][oid])
 
-    def read(i):
-        obj = st['objs'][i]
+    def read(i, obj=None):
+        obj = st['objs'][i] if obj is None else obj
         oid = goid(obj)
         before = run.loads.get(name, 0)
         ghost = obj._p_changed is None
         if tr:
-            tr.pre_read(name, st['conn'], oid)
+            tr.pre_read(name, obj._p_jar, oid)
         v = get_value(obj)
         hit = run.loads.get(name, 0) == before
         if tr:
-            tr.post_read(name, st['conn'], oid, hit, u64(obj._p_serial), v)
+            tr.post_read(name, obj._p_jar, oid, hit, u64(obj._p_serial), v)
         ep = epoch_of(obj)
         if oid in run.pending[name]:
             ep['owns'].append((oid, v, run.pending[name][oid], run.tick()))
@@ -475,11 +565,12 @@ def worker(run, db, name, ops, nobj, explicit, stamps, nobj2=0):
 
     def do_commit(poison):
         if poison:
-            tm.get().join(Poison(tm))
+            tm.get().join(Poison(tm, poison))
         if tr:
             tr.pre_commit(name, st['conn'])
         try:
             tm.commit()
+            st['newobjs'] += st['newpend']
         except (ConflictError, PoisonError) as e:
             run.errors.append((name, 'commit-failed', type(e).__name__))
             if tr:
@@ -570,8 +661,73 @@ def worker(run, db, name, ops, nobj, explicit, stamps, nobj2=0):
                         run.pending[name][goid(obj)] = stamp
                         if tr:
                             tr.write(name, st['conn'], u64(obj._p_oid), stamp)
-                elif k in ('c', 'cv'):
-                    boundary(lambda: do_commit(k == 'cv'))
+                elif k in ('c', 'cv', 'cc', 'cb'):
+                    boundary(lambda: do_commit({'cv': 'vote', 'cc': 'commit', 'cb': 'begin'}.get(k)))
+                elif k == 'cm':
+                    for c in conns():
+                        c.cacheMinimize()
+                elif k == 'rg':
+                    obj = st['objs'][op[1]]
+                    if obj._p_jar.get(obj._p_oid) is not obj:
+                        run.errors.append((name, 'identity', 'Connection.get returned another object'))
+                        raise AssertionError('Connection.get(oid) is not the cached object')
+                    read(op[1])
+                elif k == 'os':
+                    read(op[1])
+                    obj = st['objs'][op[1]]
+                    if hasattr(obj, 'value') and goid(obj) not in run.pending[name] \
+                            and obj._p_jar._savepoint_storage is None:
+                        state = obj._p_jar.oldstate(obj, obj._p_serial)
+                        epoch_of(obj)['reads'].append((goid(obj), u64(obj._p_serial), state['value'], run.tick(),
+                                                       'oldstate', False))
+                elif k == 'rcur':
+                    read(op[1])
+                    obj = st['objs'][op[1]]
+                    if goid(obj) not in run.pending[name]:
+                        obj._p_jar.readCurrent(obj)
+                elif k == 'ex':
+                    obj = st['objs'][op[1]]
+                    if hasattr(obj, 'value') and goid(obj) not in run.pending[name] \
+                            and obj._p_jar._savepoint_storage is None:
+                        import io
+                        f = io.BytesIO()
+                        obj._p_jar.exportFile(obj._p_oid, f)
+                        raw = f.getvalue()
+                        n = int.from_bytes(raw[12:20], 'big')
+                        v = record_value(raw[20:20 + n])
+                        if v is not None:
+                            epoch_of(obj)['reads'].append((goid(obj), None, v, run.tick(), 'export', False))
+                elif k == 'idle':
+                    for _ in range(op[1]):
+                        sched._current.yield_point('idle', name)
+                elif k == 'r2':
+                    if st['conn_b'] is None:
+                        def f():
+                            st['conn_b'] = db.open(tm)
+                        boundary_b(f)
+                        rootb = st['conn_b'].root()
+                        st['objs_b'] = [rootb['k%d' % i] for i in range(nobj)]
+                    for i in op[1]:
+                        if i < nobj:
+                            read(i, st['objs_b'][i])
+                elif k == 'wn':
+                    stamps[0] += 1
+                    stamp = stamps[0]
+                    cont = st['conn'].root()['c_' + name]
+                    o = MinPO(stamp)
+                    st['conn'].add(o)
+                    cont['n%d' % stamp] = o
+                    st['newpend'].append(o)
+                    for obj in (o, cont):
+                        run.pending[name][goid(obj)] = stamp
+                        if tr:
+                            tr.write(name, st['conn'], u64(obj._p_oid), stamp)
+                elif k == 'rn':
+                    for o in st['newobjs'] + st['newpend']:
+                        if o._p_jar is st['conn'] and o._p_oid is not None:
+                            read(0, o)
+                elif k == 'do':
+                    do_delete_object()
                 elif k == 'a':
                     boundary(do_abort)
                 elif k == 'b':
@@ -594,27 +750,26 @@ def worker(run, db, name, ops, nobj, explicit, stamps, nobj2=0):
                     import ZODB.Connection
                     boundary(lambda: do_abort(False))
                     ZODB.Connection.resetCaches()
-                    drop_held()
-                    st['conn'].close()
+                    close_all()
                     opn()
                 elif k == 'ic':
-                    if hasattr(db._mvcc_storage, 'invalidateCache'):
+                    if hasattr(db.storage, 'invalidateCache'):
+                        db.storage.invalidateCache()         # the storage-side route (HexStorage wrapper)
+                    elif hasattr(db._mvcc_storage, 'invalidateCache'):
                         db._mvcc_storage.invalidateCache()   # what a storage does after a reconnect
                 elif k == 'x':
                     boundary(lambda: do_abort(False))
-                    drop_held()
-                    st['conn'].close()
+                    close_all()
                     opn()
             except ConflictError as e:          # ReadConflictError of a load (simultaneous pack)
                 run.errors.append((name, 'conflict-on-read', type(e).__name__))
                 boundary(do_abort)
     finally:
         try:
-            drop_held()
             if tr:
                 tr.abort(name, st['conn'])
             tm.abort()
-            st['conn'].close()
+            close_all()
         except Exception as e:      # noqa: BLE001
             run.errors.append((name, 'close', repr(e)))
 
@@ -633,10 +788,7 @@ def storage_revisions(st, off=0, revs=None):
     revs = {} if revs is None else revs
     for txn in st.iterator():
         for r in txn:
-            try:
-                v = getattr(zodb_unpickle(r.data), 'value', None) if r.data is not None else None
-            except Exception:   # noqa: BLE001
-                v = None
+            v = record_value(r.data) if r.data is not None else None
             revs.setdefault(u64(r.oid) + off, []).append((u64(r.tid), v))
     for l in revs.values():
         l.sort()
@@ -732,8 +884,9 @@ def run_case(case, tmp, with_trace=False, schedule=None):
         pool, cache_size = case.get('pool', 7), case.get('cache_size', 400)
         # the Lean model covers one database behind the MVCC adapter whose storage holds the whole
         # history and whose pool never discards a connection
+        has_do = any(op[0] == 'do' for ops in case['progs'].values() for op in ops)
         with_trace = with_trace and not nobj2 and kind not in ('mvccmap', 'demobase') and ctor != 'db-config' \
-            and pool >= nthreads + 2
+            and pool >= 2 * nthreads + 2 and not has_do
         hooks = []
         if with_trace:
             import c02_trace
@@ -795,6 +948,21 @@ def run_case(case, tmp, with_trace=False, schedule=None):
                     c2.root()['k%d' % i] = o
             if run.tracer:
                 run.tracer.write('setup', c, 0, 0)
+            from persistent.mapping import PersistentMapping
+            for tn in sorted(case['progs']):
+                if tn != 'pk':
+                    cont = PersistentMapping()
+                    c.add(cont)
+                    root['c_' + tn] = cont          # this thread's container for the objects it creates
+                    if run.tracer:
+                        run.tracer.write('setup', c, u64(cont._p_oid), 0)
+            if has_do:
+                junk = MinPO(7)
+                c.add(junk)
+                root['junk'] = junk
+                tm0.commit()
+                del root['junk']
+                box['junk'] = junk
             if kind != 'demobase':
                 for i in range(case['nobj']):
                     o = new_object(i)
@@ -815,6 +983,10 @@ def run_case(case, tmp, with_trace=False, schedule=None):
                 tm0.commit()
             if run.tracer:
                 run.tracer.post_commit('setup', c)
+            if kind == 'demobase':
+                tm0.commit()                        # (the containers)
+            if box.get('junk') is not None:
+                run.garbage.append((u64(box['junk']._p_oid), u64(box['junk']._p_serial)))
             c.close()
 
         s0 = sched.Scheduler(seed=0)
@@ -874,6 +1046,7 @@ def run_case(case, tmp, with_trace=False, schedule=None):
                         dbx.close()
                 except Exception:   # noqa: BLE001
                     pass
+    obs['kind'] = case['kind']
     obs['epochs'] = [e for e in run.epochs if e['thread'] != 'setup']
     obs['commits'] = run.commits
     obs['errors'] = run.errors
@@ -886,6 +1059,14 @@ def run_case(case, tmp, with_trace=False, schedule=None):
     return obs
 
 
+# Candidate findings of the UNCHANGED tree (reported to the coordinator with a reproducer): they are
+# counted in the evidence histogram and become KNOWN-FINDING lines once listed in known_findings.json.
+#   bw-committed-blob-removed-by-concurrent-abort: ZODB.blob.BlobStorage.tpc_finish clears its list of
+#   dirty blob files after the wrapped storage released the commit lock; a transaction that begins and
+#   aborts in that window deletes the blob file just committed (corpus/C02/repro_blobstorage_…py).
+CANDIDATES = ('C02:bw-committed-blob-removed-by-concurrent-abort',)
+
+
 # ---------------------------------------------------------------- direct oracle (model-free)
 def oracle(obs):
     """list of (signature, what) — empty when every epoch read one sufficiently fresh snapshot"""
@@ -893,6 +1074,8 @@ def oracle(obs):
     if obs['deadlock']:
         return [('C02:deadlock', 'no runnable thread (schedule deadlocked)')]
     for t, e in sorted(obs['thread_errors'].items()):
+        if obs.get('kind') in ('bwfile', 'bwmap') and 'No blob file' in e:
+            return [(CANDIDATES[0], 'BlobStorage wrapper: thread %s: %s' % (t, e))]
         out.append(('C02:thread-error', 'thread %s died: %s' % (t, e)))
     if obs.get('pool_bad'):
         out.append(('C02:pool-mutex', 'FilePool handed a reader file out while a finisher was writing (%s)'
@@ -904,6 +1087,16 @@ def oracle(obs):
         who_lo = who_hi = None
         for (oid, serial, value, _idx, _kind, _g) in ep['reads']:
             rl = revs.get(oid, [])
+            if serial is None:
+                # a record read without its serial (exportFile): stamps are unique per transaction, so
+                # the value identifies the revision — unless an undo re-instated it
+                byval = [tid for tid, v in rl if v == value]
+                if len(byval) != 1:
+                    if not byval:
+                        out.append(('C02:unknown-revision', 'thread %s exported oid %d with value %r which no '
+                                    'revision of the final storage has' % (ep['thread'], oid, value)))
+                    continue
+                serial = byval[0]
             ks = [k for k, (tid, _) in enumerate(rl) if tid == serial]
             if not ks:
                 out.append(('C02:unknown-revision', 'thread %s read oid %d serial %x which is not a '
@@ -966,7 +1159,7 @@ def canonical(case):
 def run_batch(args):
     cases, tmp, with_trace = args
     os.makedirs(tmp, exist_ok=True)
-    out = dict(evals=0, nontriv=[], hist={}, bad=[], samples=[], traces=[])
+    out = dict(evals=0, nontriv=[], hist={}, bad=[], samples=[], traces=[], candidates=[])
 
     def count(k, n=1):
         out['hist'][k] = out['hist'].get(k, 0) + n
@@ -1006,7 +1199,10 @@ def run_batch(args):
                 out['samples'].append(dict(kind=case['kind'], progs=case['progs'], seed=case['seed'],
                                            epoch=dict(thread=ep['thread'], start='%x' % (ep['start'] or 0),
                                                       reads=[(r[0], '%x' % r[1], r[2]) for r in ep['reads']])))
-        if verdict:
+        if verdict and verdict[0][0] in CANDIDATES:
+            count('candidate:' + verdict[0][0].split(':', 1)[1])
+            out['candidates'].append((verdict[0][0], verdict[0][1], case))
+        elif verdict:
             out['bad'].append((verdict[0][0], verdict[0][1], case))
         elif with_trace and obs.get('trace') is not None:
             out['traces'].append((case, obs['trace'], obs['trace_expect']))
@@ -1078,6 +1274,10 @@ def main(argv=None):
                 ck.samples.append(smp)
         bad += r['bad']
         traces += r['traces']
+        for sig, what, case in r['candidates'][:1]:
+            import re
+            if any(k.get('status', 'open') == 'open' and re.fullmatch(k['signature'], sig) for k in ck.known):
+                ck.violation(sig, what, dict(case=case))
     # violations: shrink the first of each signature
     seen = set()
     for sig, what, case in bad:
